@@ -38,6 +38,7 @@ type Opts struct {
 	NoNoopZero  bool     // never write zero to a slot that is already zero
 	NoNoopWrite bool     // never write a slot's current value (implies NoNoopZero)
 	NoSystem    bool     // never touch system contracts 0x1/0x2
+	SystemOneIn int      // a block writes to a system contract with probability 1/SystemOneIn (0: 8)
 	NoClasses   bool     // never declare classes
 	NoMigration bool
 	EmptyProb   float64 // probability of an empty block
@@ -343,7 +344,7 @@ func (g *Gen) Next(parent *Blk, st *State) *Draft {
 			}
 			g.storageWrites(sd, addr, c)
 		}
-		if !g.Opt.NoSystem && r.IntN(8) == 0 {
+		if !g.Opt.NoSystem && r.IntN(max(g.Opt.SystemOneIn, 1)+7*btoi(g.Opt.SystemOneIn == 0)) == 0 {
 			addr := F(1 + uint64(r.IntN(2)))
 			c, ok := work.Contracts[*addr]
 			if !ok {
@@ -570,4 +571,11 @@ func sortedHashes[V any](m map[felt.Felt]V) []felt.Felt {
 	}
 	sort.Slice(out, func(i, j int) bool { return out[i].Cmp(&out[j]) < 0 })
 	return out
+}
+
+func btoi(b bool) int {
+	if b {
+		return 1
+	}
+	return 0
 }
